@@ -292,7 +292,11 @@ impl PartialEq for Value {
             (Self::List(av, asep, ab), Self::List(bv, bsep, bb)) => {
                 av == bv && asep == bsep && ab == bb
             }
-            (Self::Map(a), Self::Map(b)) => a == b,
+            // Maps are equal regardless of the order of their keys.
+            (Self::Map(a), Self::Map(b)) => {
+                a.len() == b.len()
+                    && a.iter().all(|(k, v)| b.get(k) == Some(v))
+            }
             (Self::UnaryOp(a, av), Self::UnaryOp(b, bv)) => {
                 a == b && av == bv
             }
